@@ -2,6 +2,7 @@
 #include "sched.hpp"
 
 #include <condition_variable>
+#include <memory>
 #include <cstdio>
 #include <cstring>
 #include <map>
@@ -24,6 +25,9 @@ struct VT {
   bool completed = true;  // the last flushed quantum completed an instruction (contains an R token)
 };
 std::vector<VT> vts;
+// one condition variable per virtual thread (the scheduler waits on `cv`): handing the baton over wakes exactly one thread
+// instead of all of them (with 64 threads the wake-ups were most of the run time)
+std::vector<std::unique_ptr<std::condition_variable>> tcv;
 thread_local int my_tid = -1;
 std::map<const void *, std::string> names;
 std::map<const void *, int> ordinals;
@@ -169,7 +173,7 @@ yield_point()
   cur = -1;
   cv.notify_all();
   const int me = my_tid;
-  cv.wait(lk, [me] { return cur == me; });
+  tcv[me]->wait(lk, [me] { return cur == me; });
 }
 
 void
@@ -388,6 +392,8 @@ run(const std::vector<std::function<void()>> &bodies, const Options &opt)
   {
     std::unique_lock<std::mutex> lk(mu);
     vts.assign(n, VT{});
+    tcv.clear();
+    for (int i = 0; i < n; ++i) tcv.push_back(std::make_unique<std::condition_variable>());
     cur = -1;
     step_count = 0;
     spurious_steps.clear();
@@ -404,7 +410,7 @@ run(const std::vector<std::function<void()>> &bodies, const Options &opt)
         sentinel.armed = true;
         vts[i].started = true;
         cv.notify_all();
-        cv.wait(lk, [i] { return cur == i; });
+        tcv[i]->wait(lk, [i] { return cur == i; });
         open_line("start", "-", "-", "-", 0, 0, true);
       }
       bodies[i]();
@@ -506,7 +512,7 @@ run(const std::vector<std::function<void()>> &bodies, const Options &opt)
       last = pick;
       ++step_count;
       cur = pick;
-      cv.notify_all();
+      tcv[pick]->notify_one();
     }
     if (status == "stuck") {
       // virtual threads are still blocked inside the library: report and leave the process
